@@ -433,6 +433,10 @@ def check(ctx, rep):
     from .c18 import rule_scan_targets
 
     rule_scan_targets(ctx, rep)
+    from .c12 import rule_location_file_verbatim
+
+    # findings reach a file only under the very path the directory walk yields for it
+    rule_location_file_verbatim(ctx, rep)
     rep.not_covered += [
         "which paths match which glob (fnmatch semantics over trees x patterns)",
         "liveness 'every selected file with a fixable construct is fixed' beyond the lost-update rule evaluated under C18",
